@@ -95,6 +95,24 @@ def _sinks(mi, f, x, opt):
             s = io.StringIO()
             dump_json(v, s, indent=indent, ensure_ascii=ascii_)
             got['json stream'] = s.getvalue()
+        # open text FILES with their own encodings (a stream that has an
+        # `encoding` attribute); compared only when the text fits it
+        for enc in ('latin-1', 'utf-16'):
+            for kind, want in (('yaml', want_y), ('json', want_j)):
+                if want is None:
+                    continue
+                try:
+                    want.encode(enc)
+                except UnicodeEncodeError:
+                    continue
+                p5 = os.path.join(d, 'c.' + kind)
+                with open(p5, 'w', encoding=enc, newline='') as fh:
+                    if kind == 'yaml':
+                        dump(v, fh)
+                    else:
+                        dump_json(v, fh, indent=indent, ensure_ascii=ascii_)
+                with open(p5, 'r', encoding=enc, newline='') as fh:
+                    got['%s open file (%s)' % (kind, enc)] = fh.read()
     except UnicodeEncodeError:
         return None         # the file system encoding cannot hold the text
     finally:
@@ -186,15 +204,16 @@ def sources(f: int, x: int, bad: int, enc: int) -> bool:
 
 
 CONDITIONS = [
-    {'fn': 'sinks', 'slices': list(range(len(values.MODELS))), 'quick': 110,
+    {'fn': 'sinks', 'slices': list(range(len(values.MODELS))), 'quick': 240,
      'thorough': 300,
      'bound': 'one slice per class model: every alternative of every factor '
               '(x 3 option sets for the first six); YAML and JSON; str path, Path, text stream '
-              'vs. the dumps variant'},
+              '(StringIO and open files encoded as Latin-1 and '
+              'UTF-16 where the text fits) vs. the dumps variant'},
     {'fn': 'sinks_reach', 'slices': [0], 'quick': 60, 'thorough': 60,
      'expect': 'REFUTED', 'bound': 'reachability twin'},
     {'fn': 'sources', 'slices': list(range(len(values.MODELS))),
-     'quick': 110, 'thorough': 300,
+     'quick': 240, 'thorough': 400,
      'bound': 'one slice per class model: the dumped text of every '
               'alternative, and 12 invalid/odd documents (x 3 encodings of '
               'the binary stream for the first three); str, Path, StringIO, BytesIO, open text '
